@@ -21,7 +21,7 @@ Section AbfObject.
   Definition abf_load (c : @abf_cfg T) (v : abf_saved) : @abf_state T :=
     let s0 := abf_init O c in
     mkSt (fst v) (snd v) (s_bin s0) (s_fbin s0) (s_fabf s0) (s_fprev s0) (s_ft s0) (s_fold s0) (s_eng s0) (s_fj s0)
-         (s_rel s0) (s_started s0) (s_japp s0).
+         (s_rel s0) (s_started s0) (s_japp s0) (s_tfok s0).
 
   (* the protocol of ResumeModel has no run boundary inside a process *)
   Definition no_boundary (i : @abf_in T) : @abf_in T := mkIn (i_x i) (i_e i) (i_o i) (i_j i) false (i_apply i).
